@@ -184,6 +184,35 @@ def h64(s):
 # parallel exhaustive map
 
 
+# maintainer tool: VERIF_COVER=<path prefix> records which lines of the tree under test the run executes (sys.monitoring,
+# each location reported once); every process appends its new lines to <prefix>.<pid>
+_COVER = os.environ.get("VERIF_COVER")
+_cover_hits = set()
+_cover_flushed = set()
+if _COVER:
+    _mon = sys.monitoring
+
+    def _cover_line(code, lineno):
+        fn = code.co_filename
+        if fn.startswith(REPO):
+            _cover_hits.add((fn[len(REPO) + 1:], lineno))
+        return _mon.DISABLE
+    _mon.use_tool_id(_mon.COVERAGE_ID, "verif-cover")
+    _mon.register_callback(_mon.COVERAGE_ID, _mon.events.LINE, _cover_line)
+    _mon.set_events(_mon.COVERAGE_ID, _mon.events.LINE)
+
+
+def cover_flush():
+    if not _COVER:
+        return
+    new = _cover_hits - _cover_flushed
+    if new:
+        with open("{}.{}".format(_COVER, os.getpid()), "a") as f:
+            for fn, ln in sorted(new):
+                f.write("{}:{}\n".format(fn, ln))
+        _cover_flushed.update(new)
+
+
 def _run_chunk(args):
     fn, chunk = args
     res = []
@@ -197,6 +226,7 @@ def _run_chunk(args):
             res.append({"viol": [{"component": "harness", "cell": "crash",
                                   "symptom": "harness exception: " + traceback.format_exc()[-400:],
                                   "input": case}], "state": "HARNESS-CRASH"})
+    cover_flush()
     return res
 
 
